@@ -305,7 +305,11 @@ func TestVerifShachain(t *testing.T) {
 						o, _ := prod.AtIndex(k + 1 + uint64(r.intn(3)))
 						bad = *o
 					}
-					kind = "corrupt"
+					// a damaged loaded store stays "tamper": its buckets are
+					// not a state reachable by inserts
+					if kind != "tamper" {
+						kind = "corrupt"
+					}
 					err := store.AddNextEntry(&bad)
 					ops = append(ops, vOp{"add", hx(bad[:]), err == nil})
 					if err == nil {
